@@ -3,6 +3,7 @@ package props
 import (
 	"bytes"
 	"fmt"
+	"hash/fnv"
 
 	"free5gclib/nas"
 	"mc/refnas"
@@ -26,6 +27,9 @@ type nasCase struct {
 // codec) or C09 (wire layout == table, both directions).
 func runNAS(ctx *Ctx, prop string) {
 	r := ctx.R
+	if ctx.Isolate() {
+		return
+	}
 	tab, err := loadNasTable()
 	if err != nil {
 		r.HarnessError(err.Error())
@@ -191,6 +195,13 @@ func runNAS(ctx *Ctx, prop string) {
 		pairs += len(m.Optional)
 	}
 	r.Set("message_IE_pairs", pairs)
+	{
+		h := fnv.New64a()
+		for _, c := range cases {
+			h.Write([]byte(c.t.Name + c.desc))
+		}
+		r.Consistent("case list", fmt.Sprintf("%d cases, hash %x", len(cases), h.Sum64()))
+	}
 	ParallelFor(r, len(cases), func(l *report.Local, i int) {
 		c := cases[i]
 		c.a = c.mk()
@@ -214,7 +225,9 @@ func runNAS(ctx *Ctx, prop string) {
 			r.Sample(nasAbstractString(cases[i].t, cases[i].mk()) + " (" + cases[i].desc + ")")
 		}
 	}
-	if prop == "C08" {
+	if !ctx.Lead() {
+		// once-only parts below
+	} else if prop == "C08" {
 		nasUnknownTypes(r, tab)
 	} else {
 		nasConstructors(ctx, tab)
